@@ -165,7 +165,13 @@ pub fn run(ctx: &Ctx) -> i32 {
     let k = jlines().len() as u8;
     let mut complete = true;
     let mut done_stmts = 0;
-    for (si, s) in stmts.iter().enumerate() {
+    // the statements are walked with a stride coprime to their number, so that a wall-clock budget that runs out on a
+    // loaded machine leaves a spread over all statement kinds instead of cutting off the last ones
+    let nst_all = stmts.len();
+    let stride = [37usize, 41, 43, 1].into_iter().find(|p| nst_all % p != 0).unwrap_or(1);
+    for step in 0..nst_all {
+        let si = (step * stride) % nst_all;
+        let s = &stmts[si];
         if ctx.over_budget() {
             complete = false;
             break;
